@@ -10,8 +10,8 @@ from appsweep import *
 def bounds(t):
     if t == 'quick': return dict(target_cap=4, content_cap=2, methods=['GET'], entries=['execute', 'legacy'], ranges=['none'], first=['slash'],
                                  grammar=dict(methods=['GET'], ranges=['none'], leads=['/', ''], nsegs=[1, 2, 3], tails=['']))
-    return dict(target_cap=5, content_cap=2, methods=['GET', 'HEAD'], entries=['execute', 'legacy'], ranges=['none', 'open'], first=['slash', 'other'], other_cap=3, long_only_get=True,
-                grammar=dict(methods=['GET', 'HEAD'], ranges=['none', 'open'], leads=['/', '', '//h/', 'http://h/'], nsegs=[1, 2, 3], tails=['', '/', '?a', '#a']))
+    return dict(target_cap=4, content_cap=2, methods=['GET', 'HEAD'], entries=['execute', 'legacy'], ranges=['none', 'open'], first=['slash', 'other'], other_cap=3, long_only_get=True,
+                grammar=dict(methods=['GET'], ranges=['none', 'open'], leads=['/', '', '//h/', 'http://h/'], nsegs=[1, 2, 3], tails=['', '/', '?a']))
 
 
 def case(prog, params):
